@@ -13,6 +13,10 @@ VERIF = os.path.dirname(os.path.dirname(os.path.abspath(__file__)))
 REPO = os.environ.get('VERIF_REPO', '/repo')
 
 
+import threading
+_ACCOUNT = threading.Lock()
+
+
 class Check:
     def __init__(self, pid, tier, seed):
         self.pid = pid
@@ -45,7 +49,13 @@ class Check:
 
     # ---------------------------------------------------------------- TLC
     def tlc(self, module, cfg=None, require=(), expect_ok=True, **kw):
+        if not self.quick:      # the thorough tier may share the machine with other checks: never give up on wall time early
+            kw['timeout'] = 4 * kw.get('timeout', 1500)
         res = tlcmod.run(module, cfg, **kw)
+        with _ACCOUNT:   # drivers may run several TLC processes from a thread pool
+            return self._account(module, cfg, require, expect_ok, res)
+
+    def _account(self, module, cfg, require, expect_ok, res):
         self.states += res.distinct
         self.transitions += res.generated
         self.tlc_runs.append({'module': module, 'cfg': cfg or module + '.cfg', 'distinct': res.distinct,
